@@ -78,6 +78,17 @@ func drawChoices(c *fw.Ctx, nbytes int) ([]byte, string) {
 		b := c.S.Draw(nbytes*8, "bit")
 		out[b/8] = 1 << uint(b%8)
 	case 4:
+		if nbytes > 64 {
+			// large batches: one drawn value expanded by xorshift, so that the decision log stays short
+			x := uint64(c.S.Draw(1<<16, "cb-seed"))*0x9e3779b97f4a7c15 + 1
+			for i := range out {
+				x ^= x << 13
+				x ^= x >> 7
+				x ^= x << 17
+				out[i] = byte(x >> 24)
+			}
+			break
+		}
 		for i := range out {
 			out[i] = byte(c.S.Draw(256, "cb"))
 		}
@@ -324,6 +335,11 @@ func runC13(c *fw.Ctx) {
 	switch layer {
 	case "correlated", "extended":
 		nb := []int{1, 2, 4, 16}[c.S.Draw(4, "batch-bytes")]
+		if c.S.Draw(24, "huge-batch") == 0 {
+			// batch sizes around the 16-bit boundary of the per-transfer counter (and past a byte boundary of it)
+			nb = []int{8191, 8192, 8193, 8196}[c.S.Draw(4, "huge-batch-bytes")]
+			c.Probe("batch_over_65535_transfers", 1)
+		}
 		choices, cn := drawChoices(c, nb)
 		desc = fmt.Sprintf("batch=%d choices=%s", nb*8, cn)
 		delta := unexp(w.ss, "_Delta").([16]byte)
@@ -396,6 +412,10 @@ func runC13(c *fw.Ctx) {
 		}
 	case "additive":
 		nb := []int{1, 2, 4, 16, 33}[c.S.Draw(5, "batch-bytes")]
+		if c.S.Draw(60, "huge-batch") == 0 {
+			nb = []int{8193, 8196}[c.S.Draw(2, "huge-batch-bytes")]
+			c.Probe("batch_over_65535_transfers", 1)
+		}
 		choices, cn := drawChoices(c, nb)
 		a0, n0 := drawScalar(c, "alpha0")
 		a1, n1 := drawScalar(c, "alpha1")
